@@ -157,6 +157,7 @@ type Obs struct {
 	Readable bool             `json:"readable"`
 	ListShow bool             `json:"listshow"`
 	Faithful bool             `json:"faithful"`
+	Hidden   []string         `json:"hidden"`
 	Facts    map[string]any   `json:"facts"`
 	Only     []string         `json:"only,omitempty"`
 	Procs    []procRec        `json:"procs"`
@@ -310,6 +311,10 @@ func invocation(c Cmd, ids *IDMap) (args []string, stdin []byte) {
 		args = append(args, "init")
 	default:
 		args = append(args, "version")
+	}
+	if t := c.str("trail"); t != Absent && t != "" && mode == "json" {
+		stdin = append(append([]byte{}, stdin...), map[string]string{"ws": "\n \t\n", "brace": "}", "bracket": " ]",
+			"value": "\n{\"title\":\"second value\"}", "garbage": " trailing words", "brace_value": "} {\"title\":\"after a brace\"}"}[t]...)
 	}
 	return args, stdin
 }
@@ -529,7 +534,7 @@ func (sp *Stepper) step(c Cmd, tag string) *Obs {
 	tab := rk.table()
 
 	o := &Obs{Tag: tag, Cmd: c, Exit: res.Exit, Procs: []procRec{}, Readers: []readerRec{}, After: []afterRec{}, Readable: pre.Readable && post.Readable,
-		ListShow: len(pre.Mismatch) == 0 && len(post.Mismatch) == 0, Faithful: post.Faithful,
+		ListShow: len(pre.Mismatch) == 0 && len(post.Mismatch) == 0, Faithful: post.Faithful, Hidden: post.Hidden,
 		Pre: rankView(pre.View, tab), Post: rankView(post.View, tab),
 		LogPre: rankLog(plPre, tab), LogPost: rankLog(plPost, tab),
 		Facts: map[string]any{}, stderr: string(res.Stderr), stdout: string(res.Stdout), obsErr: post.Err,
